@@ -84,7 +84,7 @@ func (c12) Plan(tier string, seed uint64) []core.Case {
 	add("readtimeout", map[string]interface{}{}, 16)
 	nRand, nTLS := 200, 50
 	if tier == "thorough" {
-		nRand, nTLS = 5000, 1000
+		nRand, nTLS = 20000, 3000
 	}
 	for i := 0; i < nRand; i += 20 {
 		add("random", map[string]interface{}{"n": 20, "big": i%100 == 0}, core.Derive(seed, 1, uint64(i)).Uint64())
@@ -239,8 +239,7 @@ type c12run struct {
 func c12exec(st c12stream, back *c12stream, pl c12plan) (fwd c12run, bwd c12run, setupErr error) {
 	tp := rig.NewTransportPair(faultconn.Options{CapAtoB: pl.capacity, CapBtoA: pl.capacity}, &lime.TCPConfig{TLSConfig: rig.ClientTLS()}, &lime.TCPConfig{TLSConfig: rig.ServerTLS()})
 	defer func() {
-		_ = tp.A.Close()
-		_ = tp.B.Close()
+		tp.Close()
 	}()
 	if pl.tls {
 		ctx, cancel := context.WithTimeout(context.Background(), 20*time.Second)
@@ -668,8 +667,7 @@ func (p c12) Run(c core.Case) core.Result {
 					break
 				}
 			}
-			_ = tp.A.Close()
-			_ = tp.B.Close()
+			tp.Close()
 		}
 	case "cut":
 		st := c12smallStream(4)
